@@ -285,6 +285,16 @@ func (b *BloomSearchEngine) Stop(ctx context.Context) error {
 
 	b.stateMu.Lock()
 	b.stopped = true
+	if !b.started {
+		// Never started: IngestRows may already have accepted batches into
+		// ingestChan, and no worker exists to answer them. Run the workers
+		// for the shutdown drain alone, so those batches are flushed and
+		// acked like any other batch accepted before Stop.
+		b.started = true
+		b.wg.Add(2)
+		go b.ingestWorker()
+		go b.flushWorker()
+	}
 	b.stateMu.Unlock()
 
 	// Signal workers to stop
